@@ -110,6 +110,7 @@ pub trait StBackend {
     fn kind(&self) -> &'static str;
     fn take_not_wellformed(&mut self) -> Vec<String>;
     fn cleanup(&mut self);
+    fn files(&self) -> (String, String);
 }
 
 pub struct B<D: StorageData + Persist> {
@@ -181,6 +182,7 @@ impl<D: StorageData + Persist> StBackend for B<D> {
     fn kind(&self) -> &'static str { D::KIND }
     fn take_not_wellformed(&mut self) -> Vec<String> { std::mem::take(&mut self.log.borrow_mut().not_wellformed) }
     fn cleanup(&mut self) { self.st = None; self.remove_files(); }
+    fn files(&self) -> (String, String) { (self.name(), format!("{}/.{}{}", self.dir, D::KIND, self.n)) }
     fn read(&self, idx: u64) -> Result<Vec<u8>, String> {
         match &self.st {
             Some(s) => s.value_as_bytes(idx).map_err(|e| err_str(&e)),
@@ -277,6 +279,11 @@ pub struct StRunner {
     pub reference: Reference,
     pub depth: Vec<u64>,
     pub prop: String,
+    pub dir: String,
+    pub committed: Vec<u8>,
+    pub crash_points: u64,
+    pub torn_points: u64,
+    pub thorough: bool,
 }
 
 impl StRunner {
@@ -290,6 +297,11 @@ impl StRunner {
             reference: Reference::default(),
             depth: vec![],
             prop: prop.into(),
+            dir: dir.into(),
+            committed: vec![],
+            crash_points: 0,
+            torn_points: 0,
+            thorough: false,
         }
     }
 
@@ -297,7 +309,15 @@ impl StRunner {
         let t: Vec<&str> = line.split(' ').collect();
         if t.len() < 2 || t[0] != "st" { return "bad-op".into(); }
         let t = &t[1..];
-        let outs: Vec<String> = self.backends.iter_mut().map(|b| b.step(t)).collect();
+        let crash = self.prop == "C01";
+        let mut outs: Vec<String> = vec![];
+        for k in 0..self.backends.len() {
+            if crash && k == 1 {
+                outs.push(self.step_file_with_crash_oracle(out, t, line));
+            } else {
+                outs.push(self.backends[k].step(t));
+            }
+        }
         let o0 = outs[0].clone();
         out.bump(&format!("st-{}", t[0]));
         if o0.starts_with("err:") { out.bump(&format!("st-{}", o0.split(' ').next().unwrap())); }
@@ -354,6 +374,74 @@ impl StRunner {
     }
 
     pub fn cleanup(&mut self) { for b in self.backends.iter_mut() { b.cleanup(); } }
+
+    /// C01 at the Storage level: run the op on the real FileStorage-backed Storage with the fs hook
+    /// installed; every pre-call state (and torn variants) must reopen to the data-file content at
+    /// the last moment the implementation's own transaction depth was 0.
+    fn step_file_with_crash_oracle(&mut self, out: &mut Out, t: &[&str], line: &str) -> String {
+        use std::cell::RefCell;
+        use std::rc::Rc;
+        let snaps: Rc<RefCell<Vec<(Vec<u8>, Vec<u8>, &'static str, &'static str, u64, Vec<u8>)>>> = Rc::new(RefCell::new(vec![]));
+        let is_new = t[0] == "new";
+        if !is_new {
+            let (dp, wp) = self.backends[1].files();
+            let sn = snaps.clone();
+            agdb::verif::set_fs_hook(Some(Box::new(move |file, op, pos, bytes| {
+                if op == "read_locked" { return; }
+                sn.borrow_mut().push((std::fs::read(&dp).unwrap_or_default(), std::fs::read(&wp).unwrap_or_default(), file, op, pos, bytes.to_vec()));
+            })));
+        }
+        let o = self.backends[1].step(t);
+        agdb::verif::set_fs_hook(None);
+        let snaps = Rc::try_unwrap(snaps).ok().unwrap().into_inner();
+        if !(t[0] == "reopen") {
+            for (i, (d, w, file, op, pos, bytes)) in snaps.iter().enumerate() {
+                self.crash_points += 1;
+                self.check_reopen(out, d, w, &format!("`{line}` before fs call {i}: {file} {op} pos={pos} len={}", bytes.len()));
+                let n = bytes.len();
+                if n < 2 { continue; }
+                let ks: Vec<usize> = if self.thorough || n <= 4 { (1..n).collect() } else { vec![1, n / 2, n - 1] };
+                for k in ks {
+                    self.torn_points += 1;
+                    let (mut d2, mut w2) = (d.clone(), w.clone());
+                    if *file == "wal" { w2.extend_from_slice(&bytes[..k]); } else {
+                        let p = *pos as usize;
+                        if d2.len() < p + k { d2.resize(p + k, 0); }
+                        d2[p..p + k].copy_from_slice(&bytes[..k]);
+                    }
+                    self.check_reopen(out, &d2, &w2, &format!("`{line}` torn fs call {i}: {file} {op} pos={pos} after {k} of {n} bytes"));
+                }
+            }
+        }
+        // the implementation's own depth decides what "committed" means
+        let txn0 = o.split(' ').any(|x| x == "txn=0");
+        if txn0 || is_new {
+            let (dp, _) = self.backends[1].files();
+            self.committed = std::fs::read(&dp).unwrap_or_default();
+        }
+        o
+    }
+
+    fn check_reopen(&mut self, out: &mut Out, data: &[u8], wal: &[u8], what: &str) {
+        let base = format!("{}/crashcopy", self.dir);
+        let wp = format!("{}/.crashcopy", self.dir);
+        std::fs::write(&base, data).unwrap();
+        std::fs::write(&wp, wal).unwrap();
+        let r = guarded(|| -> Result<Vec<u8>, String> {
+            let s = FileStorage::new(&base).map_err(|e| format!("err:{}", e.description))?;
+            let len = s.len();
+            let b = s.read(0, len).map_err(|e| format!("err:{}", e.description))?.to_vec();
+            Ok(b)
+        });
+        let _ = std::fs::remove_file(&base);
+        let _ = std::fs::remove_file(&wp);
+        match r {
+            Ok(Ok(b)) if b == self.committed => {}
+            Ok(Ok(b)) => out.violation("C01/recovered-content-differs/Storage", &format!("crash state ({what}) must reopen to the content at the last completed outermost storage transaction"), format!("{} bytes fnv={:016x}", self.committed.len(), { let mut f = Fnv::new(); f.bytes(&self.committed); f.0 }), format!("{} bytes fnv={:016x}", b.len(), { let mut f = Fnv::new(); f.bytes(&b); f.0 })),
+            Ok(Err(e)) => out.violation("C01/reopen-fails/Storage", &format!("crash state ({what}) must reopen"), "ok".into(), e),
+            Err(p) => out.violation("C01/reopen-panics/Storage", &format!("crash state ({what}) must reopen"), "ok".into(), p),
+        }
+    }
 }
 
 /// next generated op given what is live
@@ -405,6 +493,7 @@ pub fn run(args: &Args) -> Out {
     let mut out = Out::new("a case is a sequence of Storage operations (insert, insert_at incl. beyond end, replace, resize, move, remove, optimize, reopen, nested begin/commit) run on all three back-ends; non-trivial = at least one value was removed or resized while another value was live (space reuse possible); distinct = distinct op-line sequences");
     let thorough = args.tier == "thorough";
     let mut runner = StRunner::new(&format!("{}/files", args.out), &args.prop);
+    runner.thorough = thorough;
     let mut fixed: Vec<Vec<String>> = vec![];
     if args.mode == "replay" {
         let mut cur: Vec<String> = vec![];
@@ -430,7 +519,7 @@ pub fn run(args: &Args) -> Out {
     for c in &fixed { run_fixed(&mut runner, &mut out, c); }
     if args.mode != "replay" {
         let mut rng = Rng::new(args.seed ^ 0x5704);
-        let (n, maxops) = if thorough { (3000, 300) } else { (250, 60) };
+        let (n, maxops) = if args.prop == "C01" { if thorough { (600, 80) } else { (60, 30) } } else if thorough { (3000, 300) } else { (250, 60) };
         for _ in 0..n {
             out.begin_case();
             let nops = rng.range(5, maxops);
@@ -451,5 +540,9 @@ pub fn run(args: &Args) -> Out {
         }
     }
     runner.cleanup();
+    if args.prop == "C01" {
+        out.extra.insert("storage_level_crash_points_reopened".into(), serde_json::json!(runner.crash_points));
+        out.extra.insert("storage_level_torn_states_reopened".into(), serde_json::json!(runner.torn_points));
+    }
     out
 }
